@@ -163,7 +163,7 @@ type c16Item struct {
 func c16(tier string) {
 	ctx := lib.NewCtx("C16", tier)
 	maxLeaves := ctx.N(3, 4)
-	ctx.Rule = fmt.Sprintf("EXHAUSTIVE enumeration of all path ASTs with <=%d IRIs/@type over sequence, alternative, inverse and grouping, each printed in several whitespace / redundant-parenthesis variants, plus single-character edits (delete/insert/replace over the alphabet %q) of the canonical print of every sentence with <=%d IRIs (%s); each string is classified by an independent recogniser of the documented grammar; "+
+	ctx.Rule = fmt.Sprintf("EXHAUSTIVE enumeration of all path ASTs with <=%d IRIs/@type over sequence, alternative, inverse and grouping, each printed in several whitespace / redundant-parenthesis variants, plus single-character edits (delete/insert/replace over the alphabet %q) of the canonical print of every sentence with <=%d IRIs (%s), every single blank of every canonical print deleted, and runs of 33-72 blanks inside / around the sentence and between it and stray text; each string is classified by an independent recogniser of the documented grammar; "+
 		"sentences must compile and denote what the grammar's structure denotes on discriminating graphs, non-sentences must be rejected; non-trivial & distinct = distinct judged string", maxLeaves, c16Alphabet, ctx.N(2, 3), map[bool]string{true: "seeded 12% sample", false: "all of them"}[ctx.Quick()])
 	ctx.Assumptions = []string{
 		"strings with leading/trailing whitespace and the empty string are not judged",
@@ -229,6 +229,24 @@ func c16(tier string) {
 						ExtraParens: func() bool { return r0.Intn(3) == 0 },
 						Space:       func() string { return pick(r0, " ", "", "  ", "\t", "\n", " \r\n ") },
 					}), "variant", p, canon)
+				}
+				// blanks matter next to `/` (a slash directly after a name is part of the name): every single blank of the
+				// canonical print deleted, one at a time, unsampled
+				for bi := 0; bi < len(canon); bi++ {
+					if canon[bi] == ' ' {
+						add(canon[:bi]+canon[bi+1:], "edit", nil, canon)
+					}
+				}
+				// long runs of blanks: inside the sentence, around it, and between the sentence and stray text
+				if n <= 2 || r0.Intn(8) == 0 {
+					run := strings.Repeat(" ", 33+r0.Intn(40))
+					if bi := strings.Index(canon, " "); bi >= 0 {
+						add(canon[:bi]+run+canon[bi+1:], "edit", nil, canon)
+					}
+					add(run+canon+run, "edit", nil, canon)
+					for _, junk := range []string{")", ") / ex.b", "ex.b", "|", "/", "^", "x", "( ex.a", "@type", "/ / ex.b"} {
+						add(canon+run+junk, "edit", nil, canon)
+					}
 				}
 				if n <= ctx.N(2, 3) {
 					for _, e := range singleEdits(canon) {
